@@ -207,7 +207,8 @@ class Ops(SeriesOps):
                 kt = ("labels", kt, rowsel.ctx)
             new = ("scatter", kt, vt, old)
             how = "labels"
-        self.M.mutating(f, node, "loc-store", column=colsel, how=how, term=new, value=vt, rowsel=to_term(rowsel) if not isinstance(rowsel, Ser) else rowsel.term)
+        self.M.mutating(f, node, "loc-store", column=colsel, how=how, term=new, value=vt, rowsel=to_term(rowsel) if not isinstance(rowsel, Ser) else rowsel.term,
+                        rowsel_ctx=rowsel.ctx if isinstance(rowsel, Ser) else None)
         f.setcol(colsel, new)
 
     # ------------------------------------------------------------------ method dispatch
